@@ -37,6 +37,9 @@ def first_probe_uid(trace):
     for e in trace["events"]:
         if e["e"] == "htlc" and e.get("probe"):
             return e["uid"]
+        if e["e"] == "burst":
+            for it in e["items"]:
+                if it.get("probe"): return it["uid"]
     return None
 
 def run_traces(binary, cases, tag):
@@ -66,6 +69,9 @@ def brief(trace, upto=None):
     for k, (e, s) in enumerate(zip(trace["events"], trace["steps"]), 1):
         if upto and k > upto: break
         ee = {kk: v for kk, v in e.items() if kk not in ("req", "epoch", "orig")}
+        if e["e"] == "burst":
+            ee = {"e": "burst", "items": [{"uid": it["uid"], "amt": it["req"]["htlc"]["amount_msat"], "exp": it["req"]["htlc"]["cltv_expiry"], "rel": it["req"]["htlc"]["cltv_expiry_relative"],
+                                            "total": it["req"]["onion"].get("total_msat"), "hash": it["req"]["htlc"]["payment_hash"][:8]} for it in e["items"]]}
         if e["e"] == "htlc":
             rq = e["req"]
             ee.update(amt=rq["htlc"]["amount_msat"], exp=rq["htlc"]["cltv_expiry"], rel=rq["htlc"]["cltv_expiry_relative"],
@@ -200,6 +206,15 @@ def walks(r, n, families=("default", "faulty", "crashy", "slow"), nhash=(1, 2), 
         out.append(c)
     return out
 
+def bursts(r, n):
+    """Sets whose HTLCs arrive concurrently while the table lock is contended (1-4 pieces, with and without a rejecting one)."""
+    kinds = ["low_expiry", "low_total", "other_invoice", "other_amount"]
+    out = []
+    for i in range(n):
+        rej = (kinds[i % 4], (i // 4) % 4) if i % 3 == 2 else None
+        out.append(story_case(r.fork(), ending=PAY_ENDINGS[i % len(PAY_ENDINGS)], npieces=2 + i % 3, reject=rej, burst=True))
+    return out
+
 def stories(r, n, **kw):
     return [story_case(r.fork(), ending=PAY_ENDINGS[i % len(PAY_ENDINGS)], **kw) for i in range(n)]
 
@@ -264,7 +279,7 @@ def gen_for(prop):
         elif prop == "C03":
             for amount in ([1, 1000, 21000, 10**6, 10**9, 10**12, 2**32 - 1, 2**32 + 1, 2**62] if T else [1, 21000, 10**9, 2**32 + 1]):
                 cs += [story_case(r.fork(), ending=r.choice(PAY_ENDINGS), amount=amount, npieces=1 + i % 3) for i in range(6 if T else 3)]
-            cs += reject_stories(r, 16 * k)
+            cs += reject_stories(r, 16 * k); cs += bursts(r, 12 * k)
             cs += crash_sweep(r, 2 * k, 3)
             cs += walks(r, 200 if T else 40)
         elif prop == "C04":
@@ -272,7 +287,7 @@ def gen_for(prop):
             cs += reject_stories(r, 24 * k)
             cs += walks(r, 200 if T else 40, families=("default", "slow"))
         elif prop == "C06":
-            cs += stories(r, 11 * k); cs += reject_stories(r, 16 * k)
+            cs += stories(r, 11 * k); cs += reject_stories(r, 16 * k); cs += bursts(r, 12 * k)
             cs += [odd_case(r.fork()) for _ in range(20 * k)]
             cs += [odd_all_case(r.fork(), lo, lo + 12) for lo in range(0, 84, 12)]
             cs += crash_sweep(r, 2 * k, 3); cs += fault_sweep(r, 3 * k); cs += fault_sweep(r, 2 * k, kind="pay", nk=2)
@@ -280,7 +295,7 @@ def gen_for(prop):
             if T:
                 cs += fault_sweep(r, 6, kind="read", nk=8); cs += walks(r, 60, families=("readfaults",))
         elif prop == "C07":
-            cs += reject_stories(r, 48 * k); cs += stories(r, 11 * k)
+            cs += reject_stories(r, 48 * k); cs += stories(r, 11 * k); cs += bursts(r, 24 * k)
             cs += walks(r, 200 if T else 40)
             cs += crash_sweep(r, 2 * k, 3)
         elif prop == "C09":
